@@ -80,6 +80,10 @@ def handle (ts : List String) : String :=
     let xi := kvInts args "x"
     let ell := kvNat args "ell"
     match op with
+    | "packl" => showOut showNats (packLeft1BlkX2 P xa (kvNat args "rows") (kvNat args "stride") (kvNat args "blk"))
+    | "packr" => showOut showNats (packRight1BlkX2 xa (kvNat args "rows") (kvNat args "stride") (kvNat args "blk"))
+    | "ppackl" => showOut showNats (pairwisePackLeft1BlkX2 P xa ya (kvNat args "rows") (kvNat args "stride") (kvNat args "blk"))
+    | "ppackr" => showOut showNats (pairwisePackRight1BlkX2 xa ya (kvNat args "rows") (kvNat args "stride") (kvNat args "blk"))
     | "consts" => consts P
     | "ntt" => showOut showNats (transform P false (kvNat args "n") xa)
     | "intt" => showOut showNats (transform P true (kvNat args "n") xa)
